@@ -283,8 +283,22 @@ CHECKS.append({
             "pattern-fill colours create non-empty content without saying so); DataLabels.show_* repaired by a fix: commit.",
 })
 
+CHECKS.append({
+    "property_id": "C03",
+    "technique": "contract-based deductive verification by composition (C10 child order per declaration + C11 attribute lexical spaces + C05 markup safety) plus, here, template-constructor contracts: symbolic execution of the real constructor, ground skeleton validated by libxml2 against the ISO/IEC 29500-4 XSDs, integer holes proved (z3) to lie inside the XSD simple type of the attribute they occupy; bounded validated histories",
+    "category": "proof",
+    "text": "Every shape-element constructor (new_pic, new_ph_pic, new_video_pic, new_autoshape_sp, new_textbox_sp, new_freeform_sp, new_placeholder_sp for every placeholder type/orient/size, "
+            "new_cxnSp, new_grpSp, new_chart/table/ole_object_graphicFrame): per path of the real source the template reaches the parser once and its holes are integer renderings; the "
+            "real constructor run on the path's model gives an element that is schema-valid inside a slide; each integer argument's stated domain lies inside the simple type of every "
+            "attribute its value lands in (ST_Coordinate, ST_PositiveCoordinate, ST_DrawingElementId, ST_PositiveCoordinate32 ...). Skeleton validity + hole typing = validity for all arguments.",
+    "note": "Mutators through declared members are C10/C11 obligations (not repeated here). Hand-written composite mutators, chart writers and whole histories are covered by the bounded "
+            "C03.native_histories job (17 operation kinds incl. rejected calls, from the default template, a template saturated with optional p:extLst children, and corpus decks; every part validated "
+            "with libxml2 XMLSchema after every step; never counted as proved). Argument domains are stated assumptions (python-pptx does not range-check lengths). "
+            "F30 (negative c:axId), F31 (c:smooth in radar series), F25b (add_movie after p:extLst) repaired by fix: commits.",
+})
+
 NOT_APPLICABLE = [
     {"property_id": p, "reason": _PENDING}
-    for p in ["C03", "C07",
+    for p in ["C07",
               ]
 ]
